@@ -687,6 +687,36 @@ def check_exists_function(rep, prog, fn, rule, what, range_name, predicate):
     falses = [r for r in rets if r.c and r.c[0].strip_all().cv == 0]
     others = [r for r in rets if r not in trues and r not in falses]
     if others:
+        # flag idiom: `bool found = false; loops { found = P; if (found) break; } return found;` - a hit must not be overwritten: after a
+        # non-monotone assignment every enclosing loop has to be left (or test the flag) before the assignment can run again
+        LOOPS_ = ('ForStmt', 'WhileStmt', 'DoStmt', 'CXXForRangeStmt')
+        for r in others:
+            fv = ex.var_of(r.c[0]) if r.c else None
+            if fv is None or not (prog.type(prog.vars[fv]['ty']) or {}).get('bool'):
+                continue
+            for (d, rhs) in ex.assignments_to(fn, fv):
+                if rhs is None or d.k == 'VarDecl':
+                    continue
+                rr = rhs.strip_all()
+                monotone = rr.cv == 1 or (rr.k == 'BinaryOperator' and rr.op == '||' and (ex.var_of(rr.c[0]) == fv or ex.var_of(rr.c[1]) == fv))
+                if monotone:
+                    continue
+                loops = [a for a in d.ancestors() if a.k in LOOPS_]
+                child = d
+                for lp in loops:
+                    tested = lp.cond is not None and ex.refs_var(lp.cond, fv)
+                    # a statement of this loop's body that leaves the loop when the flag is set
+                    for st in (lp.body.walk() if lp.body is not None else ()):
+                        if st.k == 'IfStmt' and st.cond is not None and ex.refs_var(st.cond, fv) and st.enclosing(*LOOPS_) is lp:
+                            if any(x.k in ('BreakStmt', 'ReturnStmt') and (x.k == 'ReturnStmt' or x.enclosing(*LOOPS_) is lp) for x in st.then.walk()) or \
+                                    st.then.k in ('BreakStmt', 'ReturnStmt'):
+                                tested = True
+                    if not tested:
+                        rep.violation(rule, d, fn, what,
+                                      'the result flag is assigned `%s` for every element and the loop at line %d neither tests the flag nor is left when it is set: '
+                                      'a hit is overwritten by the elements scanned after it (only a hit in the last scanned group survives)' % (rhs.text(40), lp.line),
+                                      key='%s|%s|flag-overwritten' % (rule, fn.g))
+                        return None
         rep.undecided(rule, others[0], fn, what, 'returns a non-constant value: not an exists-loop')
         return None
     if not trues:
